@@ -96,34 +96,48 @@ Proof.
 Qed.
 Print Assumptions C07_counts_after_history.
 
-(* ---- refuted: the statement without the bound on the 1-byte-sized strings (DESIGN.md 7 #10) ---- *)
-(* a zero-terminated string of 255 characters is written with size byte 0: the reader gets the
-   empty string and takes the 255 characters for the next fields *)
-Theorem C07_nistring1_len255_refuted :
-  exists s, nul_free s /\ vlen s = 255 /\
-    forall r, rd_nistring 1 (fst (wr_nistring 1 true s) ++ r) = Ok ([], s ++ 0 :: r).
-Proof. exact nistring1_len255_refuted. Qed.
-Print Assumptions C07_nistring1_len255_refuted.
+(* ---- 1-byte-sized header strings (creator / export info) of ANY length (DESIGN.md 7 #10, repaired:
+   NiString::Write cuts the string to the longest one its size prefix can express) ---- *)
+(* a zero-terminated string of any length is read back as its first 254 characters, which is also
+   what Write leaves in memory *)
+Theorem C07_nistring1_any_length : forall s r, nul_free s ->
+  rd_nistring 1 (fst (wr_nistring 1 true s) ++ r) = Ok (clip1 s, r) /\ snd (wr_nistring 1 true s) = clip1 s.
+Proof. exact rd_wr_str1_any. Qed.
+Print Assumptions C07_nistring1_any_length.
 
-(* at header level: with a 255-character creator string (everything else well-formed) Put succeeds,
-   Get of the written bytes reads other tables, and the independent reader rejects the file *)
-Theorem C07_hdr_creator255_refuted :
-  exists t po, (forall c, str1_ok c -> wf_tables (ex_tables c)) /\ t = ex_tables str255 /\
-    nul_free (h_creator t) /\ vlen (h_creator t) = 255 /\
-    put_hdr t = Ok po /\ po_tables po = t /\
-    match get_hdr (po_bytes po ++ concat ex_pays ++ footer) with
-    | Ok (t', _) => h_creator t' = [] /\ h_exp1 t' = repeat 65 65
-    | _ => True
-    end /\
-    walkb (po_bytes po ++ concat ex_pays ++ footer) = None.
-Proof. exact hdr_creator255_refuted. Qed.
-Print Assumptions C07_hdr_creator255_refuted.
+(* header level: whatever the lengths of the four 1-byte-sized strings, Get reads back exactly the
+   header Put leaves in memory (those strings cut to 254 characters, everything else as given) *)
+Theorem C07_hdr_get_put_any_length : forall t r, wf_tables (clip_tables t) ->
+  exists po, put_hdr t = Ok po /\ po_tables po = clip_tables t /\
+             get_hdr (po_bytes po ++ r) = Ok (clip_tables t, r).
+Proof. exact hdr_get_put_long. Qed.
+Print Assumptions C07_hdr_get_put_any_length.
 
-(* a longer string is cut to (length mod 256) characters in memory by the save itself *)
-Theorem C07_nistring1_truncates_refuted :
-  exists s, nul_free s /\ vlen s = 300 /\ vlen (snd (wr_nistring 1 true s)) = 44.
-Proof. exact nistring1_truncates_refuted. Qed.
-Print Assumptions C07_nistring1_truncates_refuted.
+(* and Save: the written file is walked by the independent reader and described by the header
+   Save leaves in memory *)
+Theorem C07_walk_save_any_length : forall (blk : Type) (put_blk : tables -> srefs -> blk -> list N) (m : model blk) (ps : list (list N)),
+  wf_model blk put_blk (clip_model blk m) ps ->
+  let t' := set_sizes (clip_tables (m_hdr blk m)) (map (@vlen N) ps) in
+  exists bytes hb : list N,
+    save_core blk put_blk m = Ok (bytes, clip_model blk m) /\
+    bytes = hb ++ concat ps ++ footer /\
+    get_hdr bytes = Ok (t', concat ps ++ footer) /\ walkb bytes = Some (t', ps) /\ walk bytes = Some t'.
+Proof. exact walk_save_long. Qed.
+Print Assumptions C07_walk_save_any_length.
+
+(* the inputs that failed before the repair *)
+Theorem C07_nistring1_len255 : forall r,
+  rd_nistring 1 (fst (wr_nistring 1 true str255) ++ r) = Ok (repeat 65 254, r)
+  /\ snd (wr_nistring 1 true str255) = repeat 65 254.
+Proof. exact nistring1_len255. Qed.
+Print Assumptions C07_nistring1_len255.
+
+Theorem C07_hdr_creator255 :
+  exists po, put_hdr (ex_tables str255) = Ok po /\
+    po_tables po = ex_tables (repeat 65 254) /\
+    walkb (po_bytes po ++ concat ex_pays ++ footer) = Some (ex_tables (repeat 65 254), ex_pays).
+Proof. exact hdr_creator255. Qed.
+Print Assumptions C07_hdr_creator255.
 
 (* NiStringRef inside blocks: from 20.1.0.3 on the 32-bit index is what is written and read; before,
    the inline sized string is read back when it is shorter than 2049 characters *)
@@ -154,5 +168,7 @@ Example C07_ex_wf_tables : wf_tables (ex_tables [110; 105; 102]).
 Proof. exact ex_wf. Qed.
 Example C07_ex_walk : walkb ex_file = Some (ex_tables [110; 105; 102], ex_pays).
 Proof. exact ex_walk. Qed.
+Example C07_ex_wf_any_length : forall c, nul_free c -> wf_tables (clip_tables (ex_tables c)).
+Proof. exact ex_wf_any. Qed.
 Example C07_ex_tab_inv : tab_inv empty_tab.
 Proof. exact empty_tab_inv. Qed.
